@@ -40,13 +40,21 @@ type Outcome struct {
 var traceBuf []string
 var traceOn bool
 
+// TraceWithText also records each displayed value's String() form (the
+// "displayed form" of C12) next to its structural form.
+var TraceWithText bool
+
 func init() {
 	// capture 显示 structurally (no stdout parsing): same map the interpreter reads.
 	exec.GlobalValues["显示"] = value.NewFunction(func(recv r.Element, params []r.Element) (r.Element, error) {
 		if traceOn {
 			var parts []string
 			for _, p := range params {
-				parts = append(parts, CanonElem(p))
+				if TraceWithText && !isNilElem(p) {
+					parts = append(parts, CanonElem(p)+"⟦"+p.String()+"⟧")
+				} else {
+					parts = append(parts, CanonElem(p))
+				}
 			}
 			traceBuf = append(traceBuf, strings.Join(parts, " "))
 		}
